@@ -105,6 +105,31 @@ def generate(check, rng, tier, run_index):
         # an incomplete residue inside the fragment (missing backbone C or O, as in many deposited structures):
         # the per-residue kernels must skip it without borrowing coordinates from anywhere else
         case['drop_backbone'] = {'res': rng.below(1 << 10), 'atom': rng.choice(['C', 'O', 'N', 'CA'])}
+    if rng.chance(0.012):
+        # a long trajectory of the whole molecule: result arrays of tens of millions of elements, beyond any internal
+        # block / buffer size (the small fragments above never leave the first block of anything).  Few functions, and the
+        # frame-context clauses are judged on a sample of frames (first, middle, the last three, some random ones).
+        bulk = ['contacts_closest', 'contacts_closest_heavy', 'contacts_sidechain', 'distances_opt', 'neighbors', 'rg', 'dssp',
+                'rmsd_par', 'com', 'kabsch_sander', 'drid', 'sasa_residue']
+        funcs = rng.sample(bulk, 3)
+        ops = []
+        for f in funcs:
+            ops.append({'op': 'threads', 'f': f})
+            for c in ('alone', 'subset'):
+                ops.append({'op': 'context', 'f': f, 'ctx': c, 'seed': rng.below(1 << 30), 'team': rng.choice([1, 2, 3]),
+                            'prob': rng.choice(SWITCH), 'sseed': rng.below(1 << 40) + 1})
+        rng.shuffle(ops)
+        case.update({'big': True, 'n_frames': rng.randint(240, 420), 'res_lo': 0, 'n_res': 28, 'ops': ops, 'scheds': scheds[:1]})
+        case.pop('drop_backbone', None)
+        return case
+    if n_frames >= 2 and rng.chance(0.25):
+        # one degenerate frame somewhere in the trajectory: a frame never filled in (all zeros, as in a preallocated array), or a
+        # carbonyl whose O sits on its C.  Whatever a kernel makes of that frame, the *other* frames' results must not notice.
+        case['degenerate'] = {'frame': rng.below(n_frames), 'kind': rng.choice(['zeros', 'zeros', 'carbonyl']), 'res': rng.below(1 << 10)}
+        case['ops'] = [o for o in case['ops'] if not o['f'].startswith('sasa')]       # sasa.cpp calls exit() on coincident atoms
+        if not case['ops']:
+            del case['degenerate']
+            case['ops'] = ops
     return case
 
 
@@ -127,6 +152,18 @@ def make_traj(md, case):
         xyz = xyz + r.normal(scale=case['noise'], size=xyz.shape)
     # different overall scale per frame: a value carried over from a neighbour frame is far off
     xyz = xyz * (1.0 + 0.02 * np.arange(case['n_frames']))[:, None, None]
+    dg = case.get('degenerate')
+    if dg:
+        k = dg['frame'] % case['n_frames']
+        if dg['kind'] == 'zeros':
+            xyz[k] = 0.0
+        else:
+            rs = [r for r in t.topology.residues if any(a.name == 'C' for a in r.atoms) and any(a.name == 'O' for a in r.atoms)]
+            if rs:
+                r_ = rs[dg['res'] % len(rs)]
+                ic = [a.index for a in r_.atoms if a.name == 'C'][0]
+                io = [a.index for a in r_.atoms if a.name == 'O'][0]
+                xyz[k, io] = xyz[k, ic]
     L = A = None
     if case['cell']:
         ext = float(np.abs(xyz).max()) * 2 + 2.0
@@ -391,7 +428,11 @@ def execute(check, case, workdir):
                 continue
             done.add(f)
             res.steps += 1
-            out = evaluate(md, f, w, None, case['seed'] % 100000 + 17)
+            try:
+                out = evaluate(md, f, w, None, case['seed'] % 100000 + 17)
+            except Exception:
+                res.probe('input_refused:' + f)       # as in the simulated mode: a function that refuses this input is left out
+                continue
             h = hashlib.sha256(repr([canon(x) for x in out]).encode()).hexdigest()[:16]
             res.log.append('real %s %s' % (f, h))
             res.trace.append((f, 'real'))
@@ -459,7 +500,7 @@ def execute(check, case, workdir):
                 sched = [list(r.permutation(n))]
                 compare_to_base = False
             elif ctx == 'subset':
-                k = max(1, int(r.randint(1, n + 1)))
+                k = max(1, int(r.randint(1, (4 if case.get('big') else n) + 1)))
                 sched = [sorted(r.choice(n, size=k, replace=False).tolist())]
                 compare_to_base = False
             elif ctx == 'repeat':
@@ -473,7 +514,10 @@ def execute(check, case, workdir):
             if ctx == 'alone':
                 # the whole-trajectory result, frame by frame, against each frame computed alone
                 whole = base(f, fseed)
-                for i in range(n):
+                which = range(n)
+                if case.get('big'):
+                    which = sorted(set([0, 1, n // 2, n - 3, n - 2, n - 1] + [int(x) for x in r.randint(0, n, size=3)]))
+                for i in which:
                     a = alone(f, i, fseed)
                     ok = (canon(whole[i]) == canon(a)) if rule == 'exact' else close(whole[i], a, scale)
                     if not ok:
@@ -531,6 +575,10 @@ def shrink_world(check, case):
     if case.get('drop_backbone'):
         c = copy.deepcopy(case)
         del c['drop_backbone']
+        yield c
+    if case.get('degenerate'):
+        c = copy.deepcopy(case)
+        del c['degenerate']
         yield c
     if len(case['scheds']) > 1:
         for k in range(len(case['scheds'])):
